@@ -22,6 +22,7 @@ RULE = ("random class-hierarchy domains (Bd, decorated subclass Hd, undecorated 
         "own condition, or a nested predicate-form term (depth<=2); compared with the explicit let/entity form and the "
         "oracle. Non-trivial: the oracle result is neither empty nor all members of the domain that have the target "
         "type... or the domain contains members of other types that must be filtered out. distinct by structural hash.")
+RULE += " Size cases (every tier): mixed-type domains of 70-130 members in same-type runs of 20-45, dozens of members satisfying the field constraints."
 LEVEL_TEXT = ("Reference-model monitoring with a metamorphic twin: predicate-form query, explicit query and plain-Python "
               "filter (isinstance + field equalities) must return the same objects (identity, order, multiplicity).")
 LEVEL_NOTE = "Trusted: the oracle. Falsy constants are C19's data class."
